@@ -426,6 +426,9 @@ func safeExec(p *Prop, t *testing.T, sc any, keepLog bool) (o *Outcome) {
 	defer func() {
 		if r := recover(); r != nil {
 			stack := debugStack()
+			if bp, ok := r.(*kit.BubblePanic); ok {
+				r, stack = bp.Val, bp.Stack
+			}
 			if !strings.Contains(stack, kit.RepoPrefix()) {
 				panic(r) // a bug of the harness itself: let the worker die, the driver reports harness trouble
 			}
